@@ -9,6 +9,8 @@ import (
 // Program generators.  They choose WHAT to call; they never predict results (the TLA+ trace spec is the oracle).
 // They may look at what the driver observed (the in-order walk t.last, the cursor) to pick interesting arguments.
 
+var noKeyUpd bool
+
 type wop struct {
 	name string
 	w    int
@@ -78,6 +80,9 @@ func genOp(r *rand.Rand, t *Tree, ws []wop, d keyDom, vno *int) Op {
 	name := pick(r, ws)
 	if d.gran > 1 && (name == "RangeAsc" || name == "RangeDesc") {
 		name = "Find"
+	}
+	if noKeyUpd && (name == "UpdateCurrentKey" || name == "UpdateCurrentItem") {
+		name = "FindInDescendingOrder"
 	}
 	*vno++
 	op := Op{Name: name, V: fmt.Sprintf("v%d", *vno)}
